@@ -232,6 +232,13 @@ func (r *Report) writerHistory(g *gen.G, cf *CasesFile, dir string) {
 					r.Fail(Failure{What: "a write changed the options value it was given for that call", Detail: fmt.Sprintf("before %s, after %s", snap, after), Input: map[string]any{"history": desc, "percall": pc, "on": i}})
 				}
 				eff := wEffective(fa, fb, nA, nB, err)
+				wantFmt := string(o.Format)
+				if wantFmt == "" {
+					wantFmt = string(w.Options.Format)
+				}
+				if want := tok(o.GetFormatOptions(&nativefakes.FakeSerializer{})); eff[0] != wantFmt || eff[4] != want {
+					r.Fail(Failure{What: "a write given per-call options did not use the call's format (or, without one, the writer's) and the call's own format options", Detail: fmt.Sprintf("format %q, driver received %q; expected %q and %q", eff[0], eff[4], wantFmt, want), Input: map[string]any{"history": desc, "percall": pc, "on": i}})
+				}
 				hist = append(hist, fmt.Sprintf("(HCall %d%%nat (Some %s))", i, coqConf(pc)))
 				calls = append(calls, coqfmt.Strs(eff))
 				desc = append(desc, map[string]any{"write_stream_with_options_on": i, "percall": pc, "effective": eff})
@@ -489,6 +496,10 @@ func (r *Report) readerHistory(g *gen.G, cf *CasesFile, dir string) {
 			if err == nil && fu.UnserializeCallCount() > n0 {
 				_, _, fo := fu.UnserializeArgsForCall(fu.UnserializeCallCount() - 1)
 				eff[1] = tok(fo)
+			}
+			// options given to a single call are what that call uses: the driver gets the call's own format options
+			if want := tok(o.GetFormatOptions("*nativefakes.FakeUnserializer")); err != nil || eff[1] != want {
+				r.Fail(Failure{What: "a parse given per-call options did not hand the driver the call's own format options", Detail: fmt.Sprintf("driver received %q, the call's options hold %q (error: %v)", eff[1], want, err), Input: map[string]any{"history": desc, "percall": pc, "on": i}})
 			}
 			hist = append(hist, fmt.Sprintf("(HCall %d%%nat (Some %s))", i, coqConf(pc)))
 			calls = append(calls, coqfmt.Strs(eff))
